@@ -412,7 +412,9 @@ def swf_controls(ck, recs, consts):
         t[j]["tk"] = (t[j]["tk"] + 1) % len(t[j]["circ"])
         ctl.append(("another add recorded as delivered by a Take", t))
     # a packet is recorded in the other link's mailbox
-    i = next((k for k, r in enumerate(recs) if r["a"] == "HandOver" and r["mb"][0] and r["infl"] == 0), None)
+    # (not in an Urgent state, where the comparison is deferred to the next line: the schedule's next step is then Route / Abort)
+    i = next((k for k, r in enumerate(recs) if r["a"] == "HandOver" and r["mb"][0] and r["infl"] == 0
+              and k + 1 < len(recs) and recs[k + 1]["a"] not in ("Route", "Abort")), None)
     if i is not None:
         t, j = one_trace(i)
         t[j]["mb"] = [t[j]["mb"][0][:-1], t[j]["mb"][1] + t[j]["mb"][0][-1:]] + t[j]["mb"][2:]
